@@ -157,11 +157,18 @@ def witness_search(run, cname, cfg, candidate_text, limit):
     chk = replay.ConcreteChecker(run.program, cname)
     bound = 3 if run.tier == 'quick' else 4
     seen = 0
-    for case in (c.cases or [dict(label='')]):
+    want = set(getattr(run, 'failing_cases', {}).get(cname, ()))
+    cases = list(c.cases or [dict(label='')])
+    cases.sort(key=lambda k: 0 if k.get('label') in want else 1)      # the cases of the failed obligations first
+    model = _model_values(candidate_text)
+    for case in cases:
         batch = []
-        for jargs in replay.enumerate_inputs(c, case, run.rng, bound, limit):
+        gen = replay.enumerate_inputs(c, case, run.rng, bound, limit)
+        if case.get('label') in want and model:
+            gen = _seeded(c, case, model, gen)
+        for jargs in gen:
             try:
-                if not chk.check_requires(jargs):
+                if not chk.check_requires(jargs, case):
                     continue
             except Unsupported:
                 continue
@@ -171,10 +178,48 @@ def witness_search(run, cname, cfg, candidate_text, limit):
             outs = replay.native_calls(run.program.repo, [dict(func=cname, args=a) for a in part])
             for jargs, out in zip(part, outs):
                 seen += 1
-                bad = chk.check_ensures(jargs, out)
+                bad = replay.definite(chk.check_ensures(jargs, out, case))
                 if bad:
+                    run.witness_case = case.get('label')
                     return jargs, out, bad, seen
     return None, None, None, seen
+
+
+def _model_values(text):
+    """`name = number` lines of a solver model"""
+    import re
+    from fractions import Fraction
+    out = {}
+    for line in (text or '').splitlines():
+        m = re.match(r'^\s*([A-Za-z_][\w]*)\s*=\s*\(?(-?\s*\d+(?:\.\d+)?\??(?:/\d+)?)\)?\s*$', line)
+        if m:
+            try:
+                out[m.group(1)] = float(Fraction(m.group(2).replace(' ', '').replace('?', '')))
+            except (ValueError, ZeroDivisionError):
+                pass
+    return out
+
+
+def _seeded(c, case, model, gen):
+    """the enumerated inputs, each preceded by a copy whose scalar / pair parameters take the values of the
+    solver's counter-model (a hint only: the native run decides)"""
+    params = dict(c.params)
+    params.update(case.get('params', {}))
+    fx = lambda x: {'f': float(x).hex()}      # noqa: E731
+    k = 0
+    for jargs in gen:
+        if k < 50:
+            k += 1
+            s = dict(jargs)
+            for n, d in params.items():
+                if d in ('real', 'val') and n in model:
+                    s[n] = fx(model[n])
+                elif d in ('nat', 'int') and n in model:
+                    s[n] = int(model[n])
+                elif d == 'nonneg_pair' and (n + '_i') in model and (n + '_j') in model:
+                    s[n] = {'n': [fx(model[n + '_i']), fx(model[n + '_j'])], 'dtype': 'float64'}
+            yield s
+        yield jargs
 
 
 def runtime_contract_sweep(run, cnames, limit):
@@ -226,7 +271,17 @@ def check(run, cfg):
     for k in known:
         c = CONTRACTS.get(k.get('function'))
         if c is not None and k.get('region') and k.get('kind') != 'bounded':
-            c.requires.append('not (%s)' % k['region'])
+            if k.get('cases'):
+                # the region is stated for the named contract cases only
+                if k['region'] == 'True':
+                    # the whole case is the finding: it is not proved, only its witness is replayed
+                    c.cases = [case for case in c.cases if case.get('label') not in k['cases']]
+                    continue
+                for case in (c.cases or []):
+                    if case.get('label') in k['cases']:
+                        case['requires'] = list(case.get('requires', [])) + ['not (%s)' % k['region']]
+            else:
+                c.requires.append('not (%s)' % k['region'])
     # ---- generate
     reports, obligations = [], []
     for n in cfg['contracts']:
@@ -275,6 +330,9 @@ def check(run, cfg):
                 run.violations.append((ob.name, path, False))
             continue
         limit = 4000 if quick else 40000
+        import re as _re
+        run.failing_cases = getattr(run, 'failing_cases', {})
+        run.failing_cases[func] = set(m.group(1) for ob, r in hard for m in [_re.search(r'\[([^\]]*)\]$', ob.name)] if m)
         try:
             jargs, out, bad, seen = witness_search(run, func, cfg, hard[0][1]['info'], limit)
         except Unsupported as e:
@@ -285,7 +343,7 @@ def check(run, cfg):
                            solver=dict(status=r['status'], backend=r['backend'], model=r['info']),
                            inputs_tried=seen)
             if jargs is not None:
-                payload.update(failing_input=jargs, native_outcome=out, violated=bad,
+                payload.update(failing_input=jargs, native_outcome=out, violated=bad, case=getattr(run, 'witness_case', None),
                                replay_cmd='python3-vt -m dvc.check %s --replay <this file>' % prop)
             else:
                 payload['no_failing_input_found'] = True
